@@ -17,6 +17,16 @@ add("C17", "runtime monitoring: boundary monitors on fidelity/trace_distance/par
     "Every call of the monitored functions on tens of thousands (thorough: ~10^6) of generated pure/mixed/rank-deficient/near-pure/commuting/orthogonal/stabilizer pairs, triples and (state, subset) cases is compared with a reference written from the textbook definitions; symmetry, range, metric axioms and Fuchs-van de Graaf are asserted on the observed values. Held on the observed executions only.",
     TRUST + "Tolerances 1e-7 (5e-6 on mixed-state fidelity values because of the sqrt conditioning).", "DESIGN.md section 5, C17")
 
+add("C20", "runtime monitoring: exhaustive enumeration of the finite single-qubit Clifford library through the real lookup/simplify functions and one-wrapper compiles on both backends, judged by an independent matrix oracle",
+    "The finite space is enumerated completely through the real code: 24 entries, 576 products, every word over {I,H,P,X,Y,Z} up to length 5 (quick) / 7 (thorough), all 24 wrappers x register type x backend x 7 input preparations (incl. an entangled partner), plus sampled non-Clifford matrices that must be rejected.",
+    TRUST + "Equality up to global phase with tolerance 1e-9.", "DESIGN.md section 5, C20")
+add("C05", "runtime monitoring: boundary monitors on stabilizer fidelity / inner_product / canonical_form / Stabilizer.__eq__ / Infidelity with dense and closed-form overlap oracles over complete small spaces and random large states",
+    "Every ordered pair of stabilizer states on <=2 qubits (thorough: <=3 qubits, 1.17 million pairs) in random generating sets with random destabilizers, plus random pairs up to 10 qubits (word-related, sign-only different, same state in two presentations), is pushed through the real functions and compared with |<a|b>|^2 computed independently.",
+    TRUST + "Values are dyadic rationals compared with tolerance 1e-9.", "DESIGN.md section 5, C05")
+add("C11", "runtime monitoring: boundary monitors on inverse_circuit / clifford_from_stabilizer / graph->tableau with an independent Pauli-algebra oracle replaying the returned circuits",
+    "For every ordered generating set of every stabilizer state on <=2 qubits (thorough: <=3 qubits, 181806 presentations), random and Y/sign-heavy states up to 12 qubits and graphs up to 30 vertices, the returned circuit is replayed by the oracle forwards (must reach +Z_1..+Z_n) and backwards from |0..0> (must reproduce the state), and every derived Clifford tableau is checked for validity and for the state it represents.",
+    TRUST, "DESIGN.md section 5, C11")
+
 NOT_YET = {
 }
 
